@@ -10,13 +10,15 @@ On every path of the swap entry points and of the four sign handlers:
 import itertools
 import re
 
-from gsa import facts, ir, paths, predeval
+import json
+import os
+
+from gsa import facts, ir, kinds, paths, predeval
 from gsa.facts import Unit, rel, AnalysisBroken
 from gsa.report import Check
 
-UNITS = [Unit('mx_pat', 'matrix_pat.cpp', ['src/Persistence_matrix/include/gudhi/Persistence_matrix/ru_vine_swap.h',
-                                          'src/Persistence_matrix/include/gudhi/Persistence_matrix/chain_vine_swap.h'],
-              no_inst=True)]
+TABLE = json.load(open(os.path.join(facts.VERIF, 'tables', 'c06.json')))
+UNITS = [Unit('mx_pat', 'matrix_pat.cpp', ['src/Persistence_matrix/include/gudhi/Persistence_matrix/'], no_inst=True)]
 RU = 'src/Persistence_matrix/include/gudhi/Persistence_matrix/ru_vine_swap.h'
 CH = 'src/Persistence_matrix/include/gudhi/Persistence_matrix/chain_vine_swap.h'
 HANDLERS = ('_positive_vine_swap', '_negative_vine_swap', '_positive_negative_vine_swap',
@@ -175,6 +177,76 @@ def check_ru_transposes(chk, fns):
     chk.expect_count('E7-transpose', 'RU transposes', n, 4)
 
 
+def check_map_moves(chk, F):
+    """moving a dictionary entry from key A to key B is written `C.emplace(B, C.at(A)); C.erase(A);` - the key that
+    is erased must be the key that was read, never the key just created"""
+    n = 0
+    for f in F.functions:
+        if f['inst'] not in (0, 2) or f.get('clsname') not in ('RU_vine_swap', 'Chain_vine_swap', 'Chain_barcode_swap',
+                                                                  'RU_matrix', 'Chain_matrix'):
+            continue
+        for blk in ir.walk(f.get('body')):
+            if blk.get('k') != 'CompoundStmt':
+                continue
+            st = blk.get('c') or []
+            for a, b in zip(st, st[1:]):
+                if not (ir.is_call(a) and ir.call_name(a) in ('emplace', 'try_emplace') and ir.is_call(b)
+                        and ir.call_name(b) == 'erase'):
+                    continue
+                ca, cb = ir.show(ir.call_receiver(a)), ir.show(ir.call_receiver(b))
+                args = ir.call_args(a)
+                if ca != cb or len(args) != 2:
+                    continue
+                v = ir.skipcasts(args[1])
+                if not (ir.is_call(v) and ir.call_name(v) == 'at' and ir.show(ir.call_receiver(v)) == ca):
+                    continue
+                n += 1
+                kb, ka, ke = ir.show(args[0]), ir.show(ir.call_args(v)[0]), ir.show(ir.call_args(b)[0])
+                ok = ke == ka and kb != ka
+                chk.ob('E2-map-move', '%s::%s moves %s[%s] to key %s and erases the old key' % (
+                    f['clsname'], f['name'], ca.split('->')[-1], ka, kb), '%s:%s' % (rel(f['file']), b.get('l')), ok,
+                    '' if ok else 'entry read at key %s, created at key %s, but key %s is erased' % (ka, kb, ke),
+                    key='E2|%s::%s|map-move|%s' % (f['clsname'], f['name'], ka))
+    chk.expect_count('E2-map-move', 'dictionary entry moves', n, 4)
+
+
+CHAIN_FILES = ('Chain_matrix.h', 'chain_vine_swap.h', 'chain_pairing.h', 'chain_rep_cycles.h',
+               'chain_column_extra_properties.h')
+CHAIN_CONTAINERS = {'pivotToColumnIndex_': ('ID', 'MAT'), 'pivotToPosition_': ('ID', 'POS'), 'matrix_': ('MAT', None)}
+
+
+def check_index_kinds(chk, F):
+    """E11: the three index spaces of the chain matrix (column index, cell ID, filtration position) never meet: every
+    dictionary is indexed with its key kind, every argument has the kind of its parameter, comparisons and
+    assignments stay within one kind (kinds read from the declared typedef names Index / ID_index / Pos_index)"""
+    fns = [f for f in F.functions if f['inst'] in (0, 2) and f['file'].split('/')[-1] in CHAIN_FILES]
+    if len(fns) < 80:
+        raise AnalysisBroken('C06: chain family not found (%d functions)' % len(fns))
+    kc = kinds.KindChecker(fns, CHAIN_CONTAINERS)
+    per_fn = {}
+    for f in fns:
+        before = len(kc.reports)
+        c0 = kc.checked
+        kc.run(f)
+        per_fn[id(f)] = (f, kc.reports[before:], kc.checked - c0)
+    chk.count('index-kind meetings checked', kc.checked)
+    for f, reps, n in per_fn.values():
+        if n == 0 and not reps:
+            continue
+        owner = f.get('clsname') or '-'
+        real = []
+        for node, msg in reps:
+            if '%s::%s|%s' % (owner, f['name'], msg) in TABLE['kind_conflations_ok']:
+                chk.count('documented kind conflations')
+                continue
+            real.append((node, msg))
+        chk.ob('E11-index-kinds', '%s::%s keeps column indices, cell IDs and positions apart (%d meetings)'
+               % (owner, f['name'], n), '%s:%d' % (rel(f['file']), f['line']), not real,
+               '; '.join('line %s: %s' % (nd.get('l'), m) for nd, m in real[:3]),
+               key='E11|%s::%s|%s' % (owner, f['name'], real[0][1][:60] if real else ''))
+    chk.expect_count('E11-index-kinds', 'kind meetings', kc.checked, 150)
+
+
 def run(tier, replay=None):
     chk = Check('C06', tier,
                 'Static decision of the truthful-return clause of vineyard swaps on every path of the case analysis '
@@ -190,6 +262,8 @@ def run(tier, replay=None):
                       kept='false', exchanged='true',
                       sign_vars={'iIsPositive': (1, '+'), 'iiIsPositive': (2, '+')}, pairing_only=False)
     check_ru_transposes(chk, ru)
+    check_map_moves(chk, F)
+    check_index_kinds(chk, F)
     check_family(chk, F, 'Chain_vine_swap', CH, ['vine_swap', 'vine_swap_with_z_eq_1_case'], 'swap_positions',
                  kept='columnIndex2', exchanged='columnIndex1',
                  sign_vars={'col1IsNeg': (1, '-'), 'col2IsNeg': (2, '-')}, pairing_only=True)
